@@ -100,11 +100,11 @@ def getFiltered (l : List Rule) (idx : Nat) (vals : List String) : Except PErr (
 def removeFiltered (l : List Rule) (idx : Nat) (vals : List String) : Except PErr (List Rule × Bool) :=
   (partitionFiltered idx vals l).map fun (yes, no) => (no, !yes.isEmpty)
 
-/-- `remove_filtered_policy_returns_effects` (`len(field_values) == 0` returns `[]` without touching anything) -/
+/-- `remove_filtered_policy_returns_effects` (repaired: a filter without values selects every rule, as it does for the
+    filtered reads and for `remove_filtered_policy`) -/
 def removeFilteredReturnsEffects (l : List Rule) (idx : Nat) (vals : List String) :
     Except PErr (List Rule × List Rule) :=
-  if vals.isEmpty then .ok (l, [])
-  else (partitionFiltered idx vals l).map fun (yes, no) => (no, yes)
+  (partitionFiltered idx vals l).map fun (yes, no) => (no, yes)
 
 /-- the in-memory half of `_update_filtered_policies`, given the old rules the adapter (or the in-memory filter)
     reported: `remove_policies(old)`, then `add_policies(new)` whose result is ignored, result
@@ -139,9 +139,11 @@ def update (prioTok : Option Nat) (l : List Rule) (old new : Rule) : Except PErr
       | _, _ => .error .indexError
     | none => .ok (l.set i new, true)
 
-/-- `update_policies` (repaired): validate everything, then replace in place -/
+/-- `update_policies` (repaired): validate everything (equal lengths, no old rule named twice, every old rule held, equal
+    priorities, a duplicate-free result), then replace in place -/
 def updateMany (prioTok : Option Nat) (l : List Rule) (olds news : List Rule) : Except PErr (List Rule × Bool) :=
   if olds.length != news.length then .ok (l, false)
+  else if olds.any (fun o => olds.count o > 1) then .ok (l, false)
   else if !olds.all l.contains then .ok (l, false)
   else
     let prioOk : Except PErr Unit :=
@@ -205,6 +207,18 @@ def getFiltered (l : List Rule) (idx : Nat) (vals : List String) : List Rule :=
 
 def removeFiltered (l : List Rule) (idx : Nat) (vals : List String) : List Rule × Bool :=
   (l.filter (fun r => !matchesFilter idx vals r), l.any (matchesFilter idx vals))
+
+/-- every rule that is the old side of a pair becomes the new side of (the first such) pair, where it stands -/
+def replaceAll (l olds news : List Rule) : List Rule :=
+  l.map fun x => match (olds.zip news).find? (·.1 == x) with | some (_, n) => n | none => x
+
+/-- a batch update replaces every old rule, in place, by the new rule paired with it - all of them at once - or changes
+    nothing: it applies when the lists pair up, no old rule is named twice, every old rule is held and the result is
+    again duplicate-free -/
+def updateMany (l olds news : List Rule) : List Rule × Bool :=
+  if olds.length = news.length ∧ olds.Nodup ∧ (∀ o ∈ olds, o ∈ l) ∧ (replaceAll l olds news).Nodup then
+    (replaceAll l olds news, true)
+  else (l, false)
 
 /-- a filtered update replaces the selected rules by the new ones (each once), or changes nothing: it applies when the
     filter selects something, there is something to put in its place, and no new rule is already held outside the
